@@ -30,7 +30,7 @@ RULES_M1 = [
 RULES_SEQ = [(r"Do\((\d+)\)", "op:{1}"), (r".*", None)]
 
 SCEN = {
-    "C06": {"quick": ["ks_q1", "ks_q2", "ks_q3", "ks_q4", "km_q6"], "thorough": ["ks_q1", "ks_q2", "ks_q3", "ks_q4", "km_q6", "ks_t1", "ks_t2", "ks_t3"]},
+    "C06": {"quick": ["ks_q1", "ks_q2", "ks_q3", "ks_q4", "ks_q5", "km_q6"], "thorough": ["ks_q1", "ks_q2", "ks_q3", "ks_q4", "ks_q5", "km_q6", "ks_t1", "ks_t2", "ks_t3"]},
     "C07": {"quick": ["km_q1", "km_q2", "km_q3", "km_q4", "km_q5", "km_q7"], "thorough": ["km_q1", "km_q2", "km_q3", "km_q4", "km_q5", "km_q7", "km_t1", "km_t2", "km_t3"]},
 }
 OPKEYS = ["op", "k", "s", "ks", "r", "ref", "c", "d", "out"]
